@@ -272,6 +272,7 @@ func init() {
 		{"netmap-tick", func() Driver { return NewTickDriver("C06") }, 5, 7, 120, 1000},
 		{"netmap-tick-bare", func() Driver { return NewTickDriver("C06bare") }, 4, 6, 40, 300},
 		{"netmap-tick-long-history", func() Driver { return NewTickDriver("C06hist") }, 4, 5, 40, 200},
+		{"netmap-tick-short-history", func() Driver { return NewTickDriver("C06ring") }, 6, 8, 40, 200},
 	}, nil)
 	bfsCheck("C07", "netmap-candidates", func() Driver { return NewTickDriver("C07") }, 12, 12, 120, 1000, nil)
 	bfsCheck("C10", "nns-lifecycle", func() Driver { return NewNNSDriver("C10") }, 5, 7, 120, 1000, nil)
@@ -320,7 +321,7 @@ func init() {
 		func() GridDriver { return NewFeeGridIR(1, 2) }, func() GridDriver { return NewFeeGridIR(4, 3) },
 	}, 25, 120, nil)
 	{
-		// C19: six ledger explorations (Notary on/off x Alphabet sizes) + the emit/acceptance grid
+		// C19: the ledger explorations (Notary on/off x Alphabet sizes) + the emit/acceptance grid
 		mkG := func(notary bool, n int) func() Driver { return func() Driver { return NewGasDriver(notary, n) } }
 		Registry["C19"] = &Check{
 			Run: func(tier string, seed int64) int {
@@ -331,7 +332,7 @@ func init() {
 					name   string
 					notary bool
 					n      int
-				}{{"neofs-gas-notary-n1", true, 1}, {"neofs-gas-notary-n3", true, 3}, {"neofs-gas-notary-n4", true, 4}, {"neofs-gas-legacy-n1", false, 1}, {"neofs-gas-legacy-n2", false, 2}, {"neofs-gas-legacy-n4", false, 4},
+				}{{"neofs-gas-notary-n1", true, 1}, {"neofs-gas-notary-n3", true, 3}, {"neofs-gas-notary-n4", true, 4}, {"neofs-gas-legacy-n1", false, 1}, {"neofs-gas-legacy-n2", false, 2}, {"neofs-gas-legacy-n3", false, 3}, {"neofs-gas-legacy-n4", false, 4},
 					{"neofs-gas-legacy-n4-votes", false, 4}} {
 					o := Options{Property: "C19", Tier: tier, Seed: seed, Workers: Workers(), Depth: 4, ConfCap: 40, Deadline: 8 * time.Minute}
 					if tier == "thorough" {
@@ -514,5 +515,8 @@ func init() {
 		}
 		return func() Driver { return NewSnapDriver([]int{0, 1, 2, 3, 5, 9, 10, 11, 12, 255, 256, 266}, 14, 2) }
 	}, 16, 32, 60, 300, []func() GridDriver{func() GridDriver { return NewLongHistoryGrid() }}, 2, 6, nil)
-	bfsCheck("C09", "balance-locks", func() Driver { return NewBalDriver("C09") }, 5, 8, 120, 1000, nil)
+	multiBfsCheck("C09", []part{
+		{"balance-locks", func() Driver { return NewBalDriver("C09") }, 5, 8, 120, 1000},
+		{"balance-locks-many", func() Driver { return NewBalDriver("C09many") }, 5, 7, 40, 200},
+	}, nil)
 }
